@@ -26,19 +26,19 @@ from saml2_tophat import md, saml, samlp, sigver, class_name
 from saml2_tophat.config import IdPConfig, SPConfig
 
 CLAIM = {
-    "text": "Coq theorems (Props/C03.v) over (1) the model of MetaData.certs and the certificate selection + per-certificate loop of _check_signature, for every federation, issuer, embedded certificate list and signing key: with only_use_keys_in_metadata on, a successful check implies the signer's key is a certificate of a key descriptor of the ISSUER's own entity whose use is signing or absent (exact characterisation of certs(): never an encryption-only descriptor, whatever the descriptor order; never another entity's); unknown issuer / no signing key => MissingKey even with an embedded certificate; foreign key => SignatureError; with the setting off the embedded certificates are used iff metadata yields none. The model follows /repo + proposed_fix/C03-1 (MetaData.certs skips a key descriptor without X509Data); the code before it - KeyError for the whole entity, swallowed as 'no metadata certificates' - is refuted by C03_embedded_only_as_fallback_before_fix_refuted (an embedded foreign key trusted although metadata holds a signing key) and shown only needlessly strict under the default setting (C03_before_fix_default_setting); (2) the model of the issuer-selection step of _check_signature (element's own Issuer, stripped, first; the issuer= argument only when the element names nobody) and of every call site with the argument it passes (correctly_signed_response / correctly_signed_message / _assertion: none; decrypt_assertions: none for response-level EncryptedAssertions, the enclosing assertion's Issuer for encrypted advice; direct callers: anything): the candidate certificates are those of the signed element's OWN Issuer whenever it has one, at every site and for every argument (C03_own_issuer_decides, C03_call_sites, C03_accepted_under_own_issuer); for a whole response document run through the entry point with its two retries (C03_document, induction over the assertion lists): every signed element of an accepted document - Response, plain assertion, assertion inside EncryptedAssertion, assertion inside encrypted Advice - was signed with a key trusted for ITS OWN issuer, an advice assertion without Issuer being the only element judged under another element's name; (3) histories (C03_history_*, induction over operation sequences on any set of long-lived clients, any starting state): the n-th outcome equals the outcome of that operation on that client alone. (4) certificate validity dates (Model/CertValidity.v: a certificate is (key, validity window Valid | Expired | NotYetValid), the window carried through certs() and the selection and read by nothing): C03_validity_erased - the model with dates gives on every input the verdict of the model without them on the federation with the dates erased, so every theorem above holds for federations with expired / not-yet-valid certificates; C03_validity_ignored - re-dating every metadata and KeyInfo certificate changes neither the verdict nor the fallback decision; C03_fallback_declared_list_only - KeyInfo is consulted iff the setting is off and the DECLARED signing list is empty; C03_declared_certificate_blocks_fallback - any certificate, whatever its window, in a signing / use-less key descriptor of the issuer's entity means KeyInfo is not consulted under either setting; C03_validity_only_issuer_keys, C03_declared_key_accepted_whatever_window. The loop is the C20 model instantiated with a tool that reports success iff the certificate holds the signer's key. Tie: generated federations (29 key-descriptor layouts, 6 of them with KeyName / KeyValue-only descriptors, 12 with expired / not-yet-valid certificates of the same keys - only expired, only not-yet-valid, both, expired + renewed, expired foreign + valid own, valid encryption-only + not-yet-valid foreign signing - minted by harness/c03_mint.py, their windows re-checked against the real and the harness clock on every run; embedded certificates always currently valid) x issuer x key x embedded x setting on vcheck_signature / vmd_certs (certificates told apart by window); validity federations also among the document, direct-call, message and history clients (compared with Model/IssuerSel.v on the erased federation, which C03_validity_erased justifies); places x outer issuer x own issuer x key x embedded x setting; direct calls x own x argument; seven message kinds; seeded operation sequences over five clients with conflicting metadata - each on implementation (real RSA through the stand-in, real ciphertexts) and model.",
-    "note": "Trusted: Coq kernel + vm_compute; hand-written models tied to the code by correspondence (exhaustive over the listed finite products in the thorough tier; the quick tier drops the listed slices); stand-in xmlsec1 verifies with the certificate file pysaml2 hands it; certificates are identified with (key, validity window) - Model/CertSelect.v with the key alone (cert n holds key n); what the library does with an EXPIRED KeyInfo certificate in the setting-off fallback is left unspecified (not generated); certificate-chain validation (cert_handler) is off as in the default configuration; want_assertions_or_response_signed off (C02/C04); plain (unencrypted) assertions inside an Advice are not verified by the library at all and are outside the statement.",
+    "text": "Coq theorems (Props/C03.v) over (1) the model of MetaData.certs and the certificate selection + per-certificate loop of _check_signature, for every federation, issuer, embedded certificate list and signing key: with only_use_keys_in_metadata on, a successful check implies the signer's key is a certificate of a key descriptor of the ISSUER's own entity whose use is signing or absent (exact characterisation of certs(): never an encryption-only descriptor, whatever the descriptor order; never another entity's); unknown issuer / no signing key => MissingKey even with an embedded certificate; foreign key => SignatureError; with the setting off the embedded certificates are used iff metadata yields none. The model follows /repo + proposed_fix/C03-1 (MetaData.certs skips a key descriptor without X509Data); the code before it - KeyError for the whole entity, swallowed as 'no metadata certificates' - is refuted by C03_embedded_only_as_fallback_before_fix_refuted (an embedded foreign key trusted although metadata holds a signing key) and shown only needlessly strict under the default setting (C03_before_fix_default_setting); (2) the model of the issuer-selection step of _check_signature (element's own Issuer, stripped, first; the issuer= argument only when the element names nobody) and of every call site with the argument it passes (correctly_signed_response / correctly_signed_message / _assertion: none; decrypt_assertions: none for response-level EncryptedAssertions, the enclosing assertion's Issuer for encrypted advice; direct callers: anything): the candidate certificates are those of the signed element's OWN Issuer whenever it has one, at every site and for every argument (C03_own_issuer_decides, C03_call_sites, C03_accepted_under_own_issuer); for a whole response document run through the entry point with its two retries (C03_document, induction over the assertion lists): every signed element of an accepted document - Response, plain assertion, assertion inside EncryptedAssertion, assertion inside encrypted Advice - was signed with a key trusted for ITS OWN issuer, an advice assertion without Issuer being the only element judged under another element's name; (3) histories (C03_history_*, induction over operation sequences on any set of long-lived clients, any starting state): the n-th outcome equals the outcome of that operation on that client alone. (4) certificate validity dates (Model/CertValidity.v: a certificate is (key, validity window Valid | Expired | NotYetValid), the window carried through certs() and the selection and read by nothing): C03_validity_erased - the model with dates gives on every input the verdict of the model without them on the federation with the dates erased, so every theorem above holds for federations with expired / not-yet-valid certificates; C03_validity_ignored - re-dating every metadata and KeyInfo certificate changes neither the verdict nor the fallback decision; C03_fallback_declared_list_only - KeyInfo is consulted iff the setting is off and the DECLARED signing list is empty; C03_declared_certificate_blocks_fallback - any certificate, whatever its window, in a signing / use-less key descriptor of the issuer's entity means KeyInfo is not consulted under either setting; C03_validity_only_issuer_keys, C03_declared_key_accepted_whatever_window. (5) metadata sources other than local files (Model/CertSource.v: a store is a list of sources in configuration order, static - inline / remote, parsed when the client is built - or lazy - MDQ / MDX, asked per entity id, caching what it got; a server is ANY function from the asked id to not-found | unparsable | descriptors, each with its OWN entityID; do_entity_descriptor files each under its own id, the asked id is then looked up): C03_source_lookup - a lookup never hands out a descriptor of another name; C03_source_named_like_issuer / C03_source_setting_off - accepted => the key is declared for signing by a descriptor whose entityID IS the issuer, which the store held or the server has just sent (setting off: or the embedded certificate); C03_source_named_descriptor_blocks_fallback; C03_source_history(_setting_off) - induction over operation sequences on one long-lived client, every step with its own answer function (first / second lookup, replayed or changing answers); C03_source_unchecked_refuted - a lazy source that files the answer under the ASKED id without comparing accepts idpA's key for issuer idpB. The loop is the C20 model instantiated with a tool that reports success iff the certificate holds the signer's key. Tie: generated federations (29 key-descriptor layouts, 6 of them with KeyName / KeyValue-only descriptors, 12 with expired / not-yet-valid certificates of the same keys - only expired, only not-yet-valid, both, expired + renewed, expired foreign + valid own, valid encryption-only + not-yet-valid foreign signing - minted by harness/c03_mint.py, their windows re-checked against the real and the harness clock on every run; embedded certificates always currently valid) x issuer x key x embedded x setting on vcheck_signature / vmd_certs (certificates told apart by window); validity federations also among the document, direct-call, message and history clients (compared with Model/IssuerSel.v on the erased federation, which C03_validity_erased justifies); places x outer issuer x own issuer x key x embedded x setting; direct calls x own x argument; seven message kinds; seeded operation sequences over five clients with conflicting metadata; 31 source configurations (mdq through a fake requests.get: own answer, another entity's descriptor, swapped, default entity for unknown ids, aggregates in both orders / without the asked id / with it twice, 404, 500 with body, empty, garbage, other XML, answers that change between first and second lookup, encryption-only descriptor; remote through a fake requests.request; inline; combinations in both orders) x setting x order of the first questions, each a long-lived client with a history of checks (issuer {idp1, idp2, unknown} x key x embedded, direct and end-to-end) vs run_steps - each on implementation (real RSA through the stand-in, real ciphertexts) and model.",
+    "note": "Trusted: Coq kernel + vm_compute; hand-written models tied to the code by correspondence (exhaustive over the listed finite products in the thorough tier; the quick tier drops the listed slices); stand-in xmlsec1 verifies with the certificate file pysaml2 hands it; certificates are identified with (key, validity window) - Model/CertSelect.v with the key alone (cert n holds key n); what the library does with an EXPIRED KeyInfo certificate in the setting-off fallback is left unspecified (not generated); certificate-chain validation (cert_handler) is off as in the default configuration; want_assertions_or_response_signed off (C02/C04); sources: which of two descriptors of the SAME name wins (document order, source order, cached vs fetched again) and whether an unparsable answer counts as 'no metadata key' under the setting off are left open (oracle only / not generated); metadata signature / validUntil of a served answer are C-other business (answers are unsigned and unexpired); the fake network stands in for requests; plain (unencrypted) assertions inside an Advice are not verified by the library at all and are outside the statement.",
     "technique": "machine-checked proof (Coq, induction over metadata lists, assertion lists and operation sequences) + correspondence over generated federations, documents and histories + oracle",
 }
 TRUSTED = ["modelled (as repaired by proposed_fix/C03-1): MetaData.certs/extract_certs, MetadataStore.__getitem__ (first entity with the id), issuer selection, certificate selection and loop of SecurityContext._check_signature, the issuer= argument of every call site, the order of signature checks in correctly_signed_response / parse_assertion / decrypt_assertions and the two retries of Entity._parse_response",
            "stand-in xmlsec1 (real RSA signatures and ciphertexts; key given on the command line only; verifies under the key of the certificate file, no look at its dates)",
            "modelled: nothing in MetaData.certs / _check_signature / cert_from_instance(ignore_age=True) reads a certificate's validity dates (Model/CertValidity.v)"]
-ASSUMPTIONS = ["symbolic signature: verifies under a certificate iff it holds the signer's key and the content is unmodified"]
+ASSUMPTIONS = ["the fake network (harness/c03_sources.py) answers requests.get / requests.request as a metadata server could", "symbolic signature: verifies under a certificate iff it holds the signer's key and the content is unmodified"]
 RULE = ("(1) IdP-1 key-descriptor layouts (29, six of them with key descriptors that carry a KeyName / KeyValue and no X509Data, twelve with expired / not-yet-valid certificates - idp2's certificate expired there too) x claimed issuer {idp1, idp2, unknown, absent, prefix-of-idp1, upper-case idp1} x signing key {idp, idp2, other, sp2, sp} x embedded KeyInfo {signer's cert, none} x "
         "only_use_keys_in_metadata {on, off, unset}; (2) place {plain, encrypted, advice-of-plain, advice-of-encrypted} x outer (issuer, own signature) {idp1, idp2, unknown, idp1 signed, idp2 signed} x "
         "own issuer {idp1, idp2, unknown, absent, idp1 in white space} x key x embedded x clients {layout x setting}; (3) direct check_signature/_check_signature on assertion/response: own issuer (10 spellings) x "
         "issuer= argument (6) x key x embedded {own, none, issuer's real cert} x clients incl. one without metadata; (4) 7 message kinds x issuer x key x embedded x clients; (5) seeded operation sequences + all ordered "
-        "client pairs x site, over 5 long-lived clients (same entity ids, conflicting keys; two of them with expired / not-yet-valid certificates); validity federations among the clients of (2)-(4); non-trivial = every cell")
+        "client pairs x site, over 5 long-lived clients (same entity ids, conflicting keys; two of them with expired / not-yet-valid certificates); validity federations among the clients of (2)-(4); (6) 31 metadata-source configurations (mdq / remote / inline through a fake network; answers own / another entity / aggregate / 404 / 500 / empty / garbage / changing) x only_use_keys_in_metadata x question order, a history of >= 18 checks on each long-lived client: issuer {idp1, idp2, unknown} x key {idp, idp2, other} x embedded; non-trivial = every cell")
 
 KEYS = ["idp", "idp2", "other", "sp2", "sp", "md"]
 KID = {k: i + 1 for i, k in enumerate(KEYS)}
